@@ -14,6 +14,8 @@ LEVEL = {
 
 # properties whose obligations are generated in interference mode as well
 INTF = {'C05', 'C06'}
+# properties that also get the table-interference pass of the writers (functions with `onlock` clauses)
+TINTF = {'C03', 'C04', 'C05'}
 
 
 def contract_tags(con):
@@ -88,6 +90,10 @@ def tasks_for(pid, spec, tier):
         tasks.append((tgt, 'seq'))
         if pid in INTF and is_cache_method(con):
             tasks.append((tgt, 'intf'))
+        if pid in TINTF and con.of('onlock'):
+            # table-interference pass: the state is arbitrary (subject to the representation invariant) when the bucket
+            # lock is acquired; the locked region is one atomic step whose effect the contract describes
+            tasks.append((tgt, 'tintf'))
     for lem in spec.sf.lemmas:
         if pid in lem.tags:
             tasks.append(('lemma:' + (lem.label or str(lem.line)), 'seq'))
